@@ -111,6 +111,12 @@ BENIGN = [
     ('b45-vec4-neg-zero-minus', 'src/f32/sse2/vec4.rs', '_mm_xor_ps(_mm_set1_ps(-0.0), self.0)', '_mm_sub_ps(_mm_setzero_ps(), self.0)', ['C01'], 'negation as 0 - x (differs only in the sign of zero, which C01 does not distinguish)'),
     ('b46-dvec3-clamp-min-first', 'src/f64/dvec3.rs', 'self.max(min).min(max)', 'self.min(max).max(min)', ['C01', 'C17'], 'clamp in the other order (equal for min <= max)'),
     ('b47-i16vec3-clamp-min-first', 'src/i16/i16vec3.rs', 'self.max(min).min(max)', 'self.min(max).max(min)', ['C13'], 'integer clamp in the other order'),
+    ('b48-doc-clause-order', 'src/f32/vec3.rs', '/// Will panic if `rhs` is not normalized when `glam_assert` is enabled.\n    #[inline]\n    #[must_use]\n    pub fn project_onto_normalized', '/// If `rhs` is not normalized this function will panic when `glam_assert` is enabled.\n    #[inline]\n    #[must_use]\n    pub fn project_onto_normalized', ['C20'], 'panic sentence with the clauses in another order'),
+    ('b49-doc-split-in-two-sentences', 'src/f32/vec3.rs', '/// Will panic if `min` is negative when `glam_assert` is enabled.', '/// Will panic if `min` is negative. This check is only active when `glam_assert` is enabled.', ['C20'], 'panic sentence split in two'),
+    ('b50-doc-example-inside-sentence', 'src/f32/vec3.rs', '/// Will panic if `min` is greater than `max` when `glam_assert` is enabled.\n    #[inline]\n    #[must_use]\n    pub fn clamp(', '/// Will panic if `min` is greater than `max`, e.g. `v.clamp(Vec3::ONE, Vec3::ZERO)`, when\n    /// `glam_assert` is enabled.\n    #[inline]\n    #[must_use]\n    pub fn clamp(', ['C20'], 'an example inside the panic sentence'),
+    ('b51-doc-parenthetical-other-param', 'src/f32/vec3.rs', '/// Will panic if `rhs` is not normalized when `glam_assert` is enabled.\n    #[doc(alias("plane"))]\n    #[inline]\n    #[must_use]\n    pub fn reject_from_normalized', '/// Will panic if `rhs` is not normalized (`self` may have any length) when `glam_assert` is enabled.\n    #[doc(alias("plane"))]\n    #[inline]\n    #[must_use]\n    pub fn reject_from_normalized', ['C20'], 'a parenthetical remark naming another parameter'),
+    ('b52-serde-visitor-let-else', 'src/features/impl_serde.rs', 'let x = seq\n                            .next_element()?\n                            .ok_or_else(|| de::Error::invalid_length(0, &self))?;\n                        let y = seq\n                            .next_element()?\n                            .ok_or_else(|| de::Error::invalid_length(1, &self))?;\n                        Ok($vec2::new(x, y))', 'let Some(x) = seq.next_element()? else {\n                            return Err(de::Error::invalid_length(0, &self));\n                        };\n                        let Some(y) = seq.next_element()? else {\n                            return Err(de::Error::invalid_length(1, &self));\n                        };\n                        Ok($vec2::new(x, y))', ['C19'], 'serde visitor written with let-else'),
+    ('b53-vec2-index-cold-panic-helper', 'src/f32/vec2.rs', 'impl Index<usize> for Vec2 {\n    type Output = f32;\n    #[inline]\n    fn index(&self, index: usize) -> &Self::Output {\n        match index {\n            0 => &self.x,\n            1 => &self.y,\n            _ => panic!("index out of bounds"),', '#[cold]\n#[inline(never)]\nfn index_out_of_bounds() -> ! {\n    panic!("index out of bounds")\n}\n\nimpl Index<usize> for Vec2 {\n    type Output = f32;\n    #[inline]\n    fn index(&self, index: usize) -> &Self::Output {\n        match index {\n            0 => &self.x,\n            1 => &self.y,\n            _ => index_out_of_bounds(),', ['C18', 'C17'], 'out-of-line cold panic helper'),
     ('b09-cross-operand-order', 'src/f32/vec3.rs', 'x: self.y * rhs.z - rhs.y * self.z,', 'x: self.y * rhs.z - self.z * rhs.y,', ['C02', 'C03', 'C07', 'C11'], 'commuted product inside cross'),
 ]
 
